@@ -122,6 +122,15 @@ class RefInsertion:
     self.value = value
 
 
+def poke(result, op):
+  """Mutates the container an operator returned (the aliasing probe of the two-step histories)."""
+  if op['op'] in NEW_OPS:
+    if isinstance(result, list):
+      result.append('<poke>')
+    elif isinstance(result, dict):
+      result['<poke>'] = 1
+
+
 def _it(values, op):
   """The call form of an iterable argument: the list itself or a one-shot generator over it."""
   return (v for v in values) if op.get('gen') else values
@@ -190,7 +199,7 @@ def ref_list_step(p, op):
   elif o == 'imul':
     p *= op['n']
   elif o == 'add':
-    r = p + d(op['vs'])
+    r = p + list(d(op['vs']))
     _purge(r)
   elif o == 'mul':
     r = p * op['n']
@@ -198,6 +207,12 @@ def ref_list_step(p, op):
     r = op['n'] * p
   elif o == 'copy':
     r = p.copy()
+  elif o == 'copy_copy':
+    r = copy.copy(p)
+  elif o == 'list_of':
+    r = list(p)
+  elif o == 'radd':
+    r = d(op['vs']) + p
   elif o == 'rebind':
     # Extensions 2 and 3 (list.py:347-364: applied in descending index order): an index past the end
     # appends, an Insertion inserts, MISSING deletes.
@@ -268,6 +283,14 @@ def ref_dict_step(p, op):
       assign(k, d(vj))
   elif o == 'copy':
     r = p.copy()
+  elif o == 'copy_copy':
+    r = copy.copy(p)
+  elif o == 'dict_of':
+    r = dict(p)
+  elif o == 'or':
+    r = p | {k: d(vj) for k, vj in op['pairs']}
+  elif o == 'ror':
+    r = {k: d(vj) for k, vj in op['pairs']} | p
   elif o == 'rebind':
     if not op['pairs'] and not op.get('kw'):
       raise ValueError('There are no values to rebind.')
@@ -333,13 +356,21 @@ def pg_list_step(pg, x, op):
   elif o == 'imul':
     x *= op['n']
   elif o == 'add':
-    r = x + d(op['vs'])
+    vs = d(op['vs'])
+    form = op.get('form')          # the right operand as a list / pg.List / tuple / iterator
+    r = x + (pg.List(vs) if form == 'pg' else tuple(vs) if form == 'tuple' else iter(vs) if form == 'iter' else vs)
   elif o == 'mul':
     r = x * op['n']
   elif o == 'rmul':
     r = op['n'] * x
   elif o == 'copy':
     r = x.copy()
+  elif o == 'copy_copy':
+    r = copy.copy(x)
+  elif o == 'list_of':
+    r = list(x)
+  elif o == 'radd':
+    r = d(op['vs']) + x
   elif o == 'rebind':
     x.rebind({k: d(vj) for k, vj in op['pairs']})
   else:
@@ -390,6 +421,14 @@ def pg_dict_step(pg, x, op):
     x |= [(k, d(vj)) for k, vj in op['pairs']]
   elif o == 'copy':
     r = x.copy()
+  elif o == 'copy_copy':
+    r = copy.copy(x)
+  elif o == 'dict_of':
+    r = dict(x)
+  elif o == 'or':
+    r = x | {k: d(vj) for k, vj in op['pairs']}
+  elif o == 'ror':
+    r = {k: d(vj) for k, vj in op['pairs']} | x
   elif o == 'rebind':
     kw = {k: d(vj) for k, vj in op.get('kw', [])}
     if op['pairs'] or not kw:
@@ -401,7 +440,11 @@ def pg_dict_step(pg, x, op):
   return r, x
 
 
-READ_OPS = {'get', 'getslice', 'len', 'contains', 'index', 'count', 'get_bad', 'getd', 'get1', 'add', 'mul', 'rmul', 'copy'}
+READ_OPS = {'get', 'getslice', 'len', 'contains', 'index', 'count', 'get_bad', 'getd', 'get1', 'add', 'mul', 'rmul', 'copy',
+            'copy_copy', 'list_of', 'radd', 'dict_of', 'or', 'ror'}
+# Operators that return a NEW container: (documented result type on the pg side)
+NEW_OPS = {'add': 'sym', 'mul': 'sym', 'rmul': 'sym', 'copy': 'sym', 'copy_copy': 'sym', 'getslice': 'list',
+           'list_of': 'list', 'radd': 'list', 'dict_of': 'dict', 'or': 'dict', 'ror': 'dict'}
 LIST_MUT = ['set', 'setslice', 'del', 'delslice', 'append', 'insert', 'extend', 'pop', 'remove', 'clear',
             'sort', 'reverse', 'iadd', 'imul', 'rebind']
 
@@ -596,7 +639,7 @@ class Gen:
         (6, 'set'), (8, 'setslice'), (4, 'del'), (5, 'delslice'), (6, 'append'), (6, 'insert'), (5, 'extend'),
         (5, 'pop'), (4 * tie, 'remove'), (1, 'clear'), (3 * tie * 2, 'sort'), (2, 'reverse'), (3, 'iadd'), (2, 'imul'),
         (5, 'rebind'), (4, 'get'), (6, 'getslice'), (1, 'len'), (2 * tie, 'contains'), (2 * tie, 'index'), (2 * tie, 'count'),
-        (2, 'add'), (2, 'mul'), (1, 'rmul'), (1, 'copy'), (1, 'bad')])
+        (3, 'add'), (2, 'mul'), (1, 'rmul'), (1, 'copy'), (1, 'copy_copy'), (1, 'list_of'), (1, 'radd'), (1, 'bad')])
     op = {'op': o}
     if o in ('set', 'insert'):
       op.update(i=self.index(n), v=self.val(allow_missing=True))
@@ -616,8 +659,12 @@ class Gen:
       op.update(s=self.slice(n))
     elif o == 'append':
       op.update(v=self.val(allow_missing=True))
-    elif o in ('extend', 'iadd', 'add'):
-      op.update(vs=self.vals(0, 3, allow_missing=r.chance(0.15)))
+    elif o in ('extend', 'iadd', 'add', 'radd'):
+      op.update(vs=self.vals(0, 3, allow_missing=(o != 'radd' and r.chance(0.15))))
+      if o == 'add':
+        if r.chance(0.35):
+          op['vs'] = []                     # nothing to concatenate: still a new list
+        op['form'] = r.choice(['list', 'pg', 'tuple', 'iter'])
     elif o in ('remove', 'contains', 'index', 'count'):
       op.update(v=self.present(p))
       if o == 'index' and r.chance(0.5):       # index(x, start, stop): both bounds, negative / out of range
@@ -680,12 +727,15 @@ class Gen:
     o = r.weighted([
         (8, 'set'), (4, 'del'), (4, 'pop'), (3, 'popd'), (3, 'popitem'), (1, 'clear'), (4, 'setdefault'),
         (2, 'setdefault1'), (6, 'update'), (4, 'update_pairs'), (2, 'update_kw'), (2, 'ior'), (2, 'ior_pairs'),
-        (4, 'rebind'), (3, 'get'), (2, 'getd'), (1, 'get1'), (2, 'contains'), (1, 'len'), (1, 'copy')])
+        (4, 'rebind'), (3, 'get'), (2, 'getd'), (1, 'get1'), (2, 'contains'), (1, 'len'), (2, 'copy'), (1, 'copy_copy'),
+        (1, 'dict_of'), (2, 'or'), (1, 'ror')])
     op = {'op': o}
     if o in ('set', 'setdefault', 'popd', 'getd'):
       op.update(k=self.key(p), v=self.val(allow_missing=(o in ('set', 'setdefault'))))
     elif o in ('del', 'pop', 'get', 'get1', 'contains', 'setdefault1'):
       op.update(k=self.key(p))
+    elif o in ('or', 'ror'):
+      op.update(pairs=self.pairs(p, allow_missing=False))
     elif o in ('ior', 'ior_pairs'):
       op.update(pairs=self.pairs(p, dups=(o == 'ior_pairs')))
       self.no_missing_on_repeats(op)
@@ -696,6 +746,10 @@ class Gen:
         op.update(kw=self.pairs(p, lo=1, kw=True))
       if o == 'update_pairs' and r.chance(0.3):
         op['gen'] = True
+      if r.chance(0.12):       # dict.update takes its mapping positionally only: these are ordinary keys
+        k = r.choice(['other', 'self'])
+        if all(k2 != k for k2, _ in op.get('kw', [])):
+          op.setdefault('kw', []).append([k, self.val()])
       self.no_missing_on_repeats(op)
     elif o == 'update_kw':
       op.update(pairs=[], kw=self.pairs(p, lo=1, kw=True))
@@ -818,8 +872,11 @@ class C02(Prop):
     for idx, op in enumerate(case['ops']):
       n_before = len(p)
       before = enc(p)
+      rr = r = None
       try:
-        a = {'r': enc(ref_step(p, op)), 'e': None}
+        rr = ref_step(p, op)
+        a = {'r': enc(rr), 'e': None}
+        poke(rr, op)            # a following mutation of the result ...
       except NotImplementedError:
         break
       except Exception as e:   # pylint: disable=broad-except
@@ -836,22 +893,35 @@ class C02(Prop):
         b = {'r': enc(r), 'e': None}
       except Exception as e:   # pylint: disable=broad-except
         b = {'r': None, 'e': err_name(e)}
+      alias = None
+      if b['e'] is None and op['op'] in NEW_OPS:
+        if r is x:
+          alias = 'result-is-receiver'
+        else:
+          try:
+            poke(r, op)         # ... must not change the receiver (checked by the contents comparison below)
+          except Exception as e:   # pylint: disable=broad-except
+            alias = 'result-not-mutable(%s)' % type(e).__name__
       b['s'] = enc(list(iter(x))) if kind == 'list' else {'d': [[k, enc(v)] for k, v in x.items()]}
       spec_steps.append(a)
       impl_steps.append(b)
       diff = None
       if a['e'] != b['e']:
         diff = 'error-class(%s->%s)' % (a['e'], b['e'])
+      elif alias:
+        diff = alias
       elif not same(a['s'], b['s']):
-        diff = 'missing-placeholder' if has_missing(b['s']) else 'contents'
+        diff = ('receiver-changed-through-result' if op['op'] in NEW_OPS else
+                'missing-placeholder' if has_missing(b['s']) else 'contents')
       elif not same(a['r'], b['r']):
         diff = 'result'
       else:
         bad = battery(pg, kind, x, p)
         if bad:
           diff = 'readback:' + bad[0]
-        elif a['e'] is None and op['op'] in ('add', 'mul', 'copy', 'getslice') and not (
-            (type(r) is type(x)) if op['op'] != 'getslice' else isinstance(r, list)):
+        elif a['e'] is None and op['op'] in NEW_OPS and not (
+            type(r) is type(x) if NEW_OPS[op['op']] == 'sym' else
+            isinstance(r, list) if NEW_OPS[op['op']] == 'list' else isinstance(r, dict)):
           diff = 'result-type'
       if diff and case.get('no_oracle'):
         # an input outside the property's domain (e.g. MISSING nested inside an argument): only the
